@@ -19,3 +19,5 @@ register_driver('harness.varint', 'tx_parse.py')
 register_driver('history.History.get_txnums.', 'history_native.py')
 register_driver('util.chunks.', 'history_native.py')
 register_driver('util.resolve_limit.', 'history_native.py')
+register_driver('session.SessionManager._notify_sessions.', 'sessionmgr_native.py')
+register_driver('session.SessionManager.limited_history.', 'sessionmgr_native.py')
